@@ -40,12 +40,12 @@ TEXTS = {
    "Export points drawn anywhere in generated histories (all statuses, extended rounds); validation, collection-by-collection equality and identical behaviour under a generated suffix. Exploration."),
  "C16": T("K", "DESIGN.md 3.C16", "stateful PBT: published flags/price vs observed transfers and reference clearing; query results vs model filter over all pages",
    "Histories through extended rounds with outbidding; every settlement and a grid of Get*/List* requests (filters x pagination modes) are compared with the snapshot. Two listing defects (auction_id ignored by two list queries) are known findings matched by exact signature; every other mismatch is reported. Exploration."),
- "C17": T("hooks", "DESIGN.md 3.C17", "fault enumeration: (hook method x failing position x occurrence x listener count) over a generated scenario with instrumented listeners",
-   "Each of the 10 hook methods x every failing position for 1..4 listeners is covered many times per run; call count/order/values/timing checked without fault, veto semantics with fault. The grid is covered exhaustively in the quick tier (measured in classes); scenario parameters are sampled."),
+ "C17": T("hooks", "DESIGN.md 3.C17", "fault enumeration + stateful PBT + differential: (hook method x failing position x occurrence x listener count) over a generated scenario and over generated histories with instrumented listeners; application-level vs keeper-level listener transcripts",
+   "Each of the 10 hook methods x every failing position for 1..4 listeners is covered many times per run; call count/order/values/timing checked without fault, veto semantics with fault, both on a fixed scenario with generated parameters and on histories from the general operation generator (expected calls derived per operation). Wiring: the same listeners registered on the application's keeper (SetHooks) or supplied to the dependency-injection container must record the same calls when the log runs as signed transactions through FinalizeBlock. The grid is covered exhaustively in the quick tier (measured in classes); scenario parameters and histories are sampled.", NOTE_A),
  "C18": T("K+A", "DESIGN.md 3.C18", "model-based PBT: predictive acceptance predicate on perturbed messages + differential transaction-boundary check",
    "Valid-by-construction messages plus 1-2 perturbations at documented precondition boundaries; accept/reject must equal the conjunction of documented preconditions; rejected => full state/balance equality (router level and, differentially, at the signed-transaction boundary). Exploration.", NOTE_A),
- "C19": T("K", "DESIGN.md 3.C19", "stateful PBT: frame snapshots + immutable terms + metamorphic projection onto one auction",
-   "2-5 concurrent auctions sharing participants: untouched auctions bit-identical around every operation; agreed terms constant; ids sequential; the history projected onto one auction must evolve identically modulo renaming. Exploration."),
+ "C19": T("K", "DESIGN.md 3.C19", "stateful PBT: frame snapshots + immutable terms + metamorphic projection onto one auction + local metamorphic isolation probe",
+   "2-5 concurrent auctions sharing participants: untouched auctions bit-identical around every operation; agreed terms constant; ids sequential; the history projected onto one auction must evolve identically modulo renaming; every bid by a bidder active elsewhere is re-executed on a branch with the bidder's records of other auctions deleted and must decide and act identically. Exploration."),
  "C20": T("CLI", "DESIGN.md 3.C20", "PBT over CLI argument vectors: typed args <-> generated tx round-trip, query request capture over loopback gRPC, real binary --help enumeration",
    "Commands are enumerated from the built command tree; generated argument vectors over full field domains must round-trip through --generate-only; query commands (and aliases) must send the typed values and display the answer; the default-built binary must start and serve --help for every command.; displayed answers must contain the stored values. One configuration (default build).",
    NOTE_K + " cosmos.Dec arguments are typed as 18-digit mantissas (client/v2 v2.0.0-beta.4 behaviour, assumption stated in DESIGN.md)."),
